@@ -67,6 +67,13 @@ def nested_models():
                      'root': ('cls', 'K')}
     yield 'nested', {'classes': BASE + [{'name': 'K', 'params': [('e', ('cls', 'E')), ('u', ('union', [('cls', 'E'), 'int']), None)]}],
                      'root': ('list', ('cls', 'K'))}
+    for mix in ('str', 'int'):
+        em = {'name': 'Em', 'kind': 'enum', 'mixin': mix, 'members': ['high', 'true', 'low']}
+        yield 'enum-mixin', {'classes': BASE + [em], 'root': ('list', ('cls', 'Em'))}
+        yield 'enum-mixin', {'classes': BASE + [em, {'name': 'K', 'params': [('e', ('cls', 'Em')), ('s', 'str', 'high')]}],
+                             'root': ('cls', 'K')}
+    yield 'extra-middle', {'classes': BASE + [{'name': 'K', 'params': [('x', 'int'), ('y', 'int', 0)], 'extra': True, 'extra_pos': 1}],
+                           'root': ('cls', 'K')}
     yield 'dashed', {'classes': BASE + [{'name': 'K', 'params': [('a_b', 'int'), ('c_d_e', 'str', 'x')], 'extra': True}],
                      'root': ('cls', 'K')}
 
